@@ -25,6 +25,8 @@ SUDOKU1 = [[0, 0, 0, 0, 3, 0, 0, 0, 0], [2, 8, 9, 0, 0, 0, 0, 0, 0], [0, 0, 5, 7
 KNAP = [[40, 40, 38, 38, 36, 36, 34, 34, 32, 32, 30, 30, 28, 28, 26, 26, 24, 24, 22, 22]] * 2 + [55]
 TSP4 = [[0, 2, 1, 2], [2, 0, 2, 1], [1, 2, 0, 2], [2, 1, 2, 0]]
 TSP5 = [[0, 3, 4, 2, 7], [3, 0, 4, 6, 3], [4, 4, 0, 5, 8], [2, 6, 5, 0, 6], [7, 3, 8, 6, 0]]
+TSP4A = [[0, 1, 9, 9], [9, 0, 5, 6], [7, 9, 0, 5], [6, 8, 7, 0]]  # asymmetric
+TSP5A = [[0, 2, 9, 4, 7], [8, 0, 3, 9, 1], [5, 6, 0, 2, 9], [9, 1, 7, 0, 3], [2, 9, 4, 8, 0]]
 TSP6 = [[0, 5, 5, 2, 9, 4], [5, 0, 3, 7, 2, 6], [5, 3, 0, 4, 8, 1], [2, 7, 4, 0, 6, 3], [9, 2, 8, 6, 0, 5], [4, 6, 1, 3, 5, 0]]
 
 
@@ -94,7 +96,7 @@ def cases(tier):
     add("knapsack", KNAP, {"cfg": "greatest-max"}, optimum=54, reference_optimum=True)
     add("knapsack", [[3, 4, 2, 5], [2, 3, 4, 1], 6], {"cfg": "bc"}, reference_optimum=True)
     add("knapsack", [[3, 4, 2, 5], [2, 3, 4, 1], 6], {"cfg": "shaving"}, reference_optimum=True)
-    for m in (TSP4, TSP5, TSP6):
+    for m in (TSP4, TSP5, TSP6, TSP4A, TSP5A):
         add("tsp", [m], {"cfg": "bc"}, reference_optimum=True)
         add("tsp", [m], {"cfg": "bc", "cost_heuristics": True}, reference_optimum=True)
         add("tsp", [m], {"cfg": "shaving", "cost_heuristics": True}, reference_optimum=True)
